@@ -298,6 +298,11 @@ func (p *parser) parseByteSequence() ([]byte, error) {
 		return nil, errors.New("structuredheader: missing closing '*'")
 	}
 	s := p.getString(len)
+	// Go's base64 decoder silently skips '\r' and '\n'; the Structured Headers
+	// algorithm fails on any character outside the base64 alphabet and '='.
+	if strings.ContainsAny(s, "\r\n") {
+		return nil, fmt.Errorf("structuredheader: invalid character in byte sequence %q", s)
+	}
 	enc := base64.StdEncoding
 	if len%4 != 0 {
 		// Allow unpadded encoding.
